@@ -172,7 +172,7 @@ func (fc *FnCtx) applyGhostSets(when string) {
 		return
 	}
 	for _, gs := range c.GhostSets {
-		if gs.When != when {
+		if strings.TrimSuffix(gs.When, "?") != when {
 			continue
 		}
 		gv, ok := fc.g.cs.Ghosts[gs.Var]
@@ -186,6 +186,25 @@ func (fc *FnCtx) applyGhostSets(when string) {
 			bindResults(env, fc.pendingResults, rn)
 		}
 		env.ghostVal(gv)
+		if strings.HasSuffix(gs.When, "?") {
+			// "return?": only at the returns where every name of the expression is in scope
+			ok := func() (ok bool) {
+				defer func() {
+					if r := recover(); r != nil {
+						if ce, is := r.(cxError); is && strings.HasPrefix(ce.msg, "unknown identifier") {
+							ok = false
+							return
+						}
+						panic(r)
+					}
+				}()
+				v := env.expr(gs.Expr)
+				fc.g.set(fc.cur, "G|"+gs.Var, v.t)
+				return true
+			}()
+			_ = ok
+			continue
+		}
 		v := env.expr(gs.Expr)
 		fc.g.set(fc.cur, "G|"+gs.Var, v.t)
 	}
